@@ -466,6 +466,15 @@ def facade_calls(env, rng):
             continue
         seen.add(label)
         out.append((label, c, a))
+        if not c.custom:
+            # the same method with an allocation length too short for any header (the caller probes) and with the largest one
+            for an, spec in c.args.items():
+                if spec[0] == "alloc":
+                    for tag, val in (("short", 4), ("zero", 0), ("large", min((1 << spec[1]) - 1, 4096))):
+                        b = dict(a)
+                        b[an] = val
+                        out.append(("%s:alloc_%s" % (label, tag), c, b))
+                    break
         if c.xfer == "ata":
             # the commands whose data a caller decodes: IDENTIFY (PACKET) DEVICE, one 512-byte sector in
             for cmdbyte in (0xEC, 0xA1):
